@@ -914,6 +914,7 @@ def explore(ctx):
 
     vcases, perts = validate_cases()
     res = ctx.run(MOD, "run_case", vcases, part="validate", transitions=3 * len(vcases))
+    ctx.run_under(MOD, "run_case", vcases[:2] + vcases[len(vcases) // 2:len(vcases) // 2 + 2] + mcases[:1], ("-O",))   # interpreter started with -O (asserts stripped)
     table = {}
     unasserted = {}
     for c, r in zip(vcases, res):
